@@ -46,7 +46,7 @@ def _child(make_calls, prefix: str, k: int, wfd: int) -> None:
                                                            len(loc_ids)))
                     elif count[0] == k:
                         paused.set()
-                        resume.wait(20.0)
+                        resume.wait(180.0)
                 return local
             return local
 
@@ -61,7 +61,7 @@ def _child(make_calls, prefix: str, k: int, wfd: int) -> None:
                 paused.set()
         t = threading.Thread(target=run_a, daemon=True)
         t.start()
-        paused.wait(30.0)
+        paused.wait(180.0)
         reached = count[0] >= k and t.is_alive()
         out['reached'] = reached
         evs_b: List[Any] = []
@@ -71,7 +71,7 @@ def _child(make_calls, prefix: str, k: int, wfd: int) -> None:
             except BaseException as ex:  # noqa
                 evs_b = [{'ev': 'race-error', 'who': 'B', 'msg': f'{type(ex).__name__}: {ex}'[:120]}]
         resume.set()
-        t.join(30.0)
+        t.join(180.0)
         out['events'] = list(res_a) + evs_b if k else []
         out['hung'] = t.is_alive()
         out['locs'] = locs
